@@ -90,6 +90,15 @@ extern "C"
 
     void channel_accept_writes(struct channel* self, uint32_t tf);
 
+    /// @brief Begin a new, empty lap if no registered reader has anything left
+    /// to read. Must not be called while a write is mapped (the writer is
+    /// expected to be stopped).
+    ///
+    /// A reader that registers afterwards starts with data written from now
+    /// on instead of with whatever the current lap still holds. Does nothing
+    /// if any reader is behind.
+    void channel_start_new_lap_if_drained(struct channel* self);
+
     struct slice channel_read_map(struct channel* self,
                                   struct channel_reader* reader);
 
